@@ -981,13 +981,28 @@ func (ch *Chain) CancelWithRcode(rcode int, do bool) {
 		}
 	}
 	m := new(dns.Msg)
-	m.Extra = req.Extra
 	m.SetRcode(req, rcode)
 	m.RecursionAvailable = true
 	m.RecursionDesired = true
 
-	if opt := m.IsEdns0(); opt != nil {
+	// The reply gets an OPT of its own when the request had one. Copying the
+	// request's additional section instead would hand the client's options
+	// back to it - its subnet, anything unknown, a second OPT record - from
+	// handlers that run before the edns layer has normalised the request.
+	// Only a COOKIE is carried over: the handler that answers BADCOOKIE has
+	// rewritten it, and RFC 7873 wants it on that reply.
+	if reqOpt := req.IsEdns0(); reqOpt != nil {
+		opt := new(dns.OPT)
+		opt.Hdr.Name = "."
+		opt.Hdr.Rrtype = dns.TypeOPT
+		opt.SetUDPSize(reqOpt.UDPSize())
 		opt.SetDo(do)
+		for _, option := range reqOpt.Option {
+			if cookie, ok := option.(*dns.EDNS0_COOKIE); ok {
+				opt.Option = append(opt.Option, cookie)
+			}
+		}
+		m.Extra = []dns.RR{opt}
 	}
 
 	_ = ch.Writer.WriteMsg(m)
